@@ -521,6 +521,8 @@ def run_case(contract, values, log=None):
             avail['raised'] = None
             clauses = list(contract.ensures.items()) + list(contract.ensures_all.items())
         except Exception as e:
+            if isinstance(e, AttributeError) and _shape_gap(e, values):
+                raise HarnessGap(str(e))
             out['outcome'] = 'raise'
             out['exception'] = f'{type(e).__name__}: {e}'
             avail['result'] = None
@@ -540,6 +542,32 @@ def run_case(contract, values, log=None):
         return out
     finally:
         patches.undo()
+
+
+class HarnessGap(Exception):
+    """the real code touched an attribute the contract's input shape does not provide: not a verdict"""
+
+
+def _shape_gap(e, values):
+    obj = getattr(e, 'obj', None)
+    if obj is None:
+        return False
+    seen = set()
+
+    def reach(v, d=0):
+        if id(v) in seen or d > 4:
+            return False
+        seen.add(id(v))
+        if v is obj:
+            return True
+        if isinstance(v, (list, tuple)):
+            return any(reach(x, d + 1) for x in v)
+        if isinstance(v, dict):
+            return any(reach(x, d + 1) for x in v.values())
+        if hasattr(v, '__dict__') and not isinstance(v, type):
+            return any(reach(x, d + 1) for x in vars(v).values())
+        return False
+    return any(reach(v) for v in values.values())
 
 
 def exc_name(e):
@@ -619,13 +647,17 @@ def _short(v, n=300):
 # bounded search
 # =============================================================================================
 
-def search(contract, clause_names, seed, budget, per_case=None):
+def search(contract, clause_names, seed, budget, per_case=None, seconds=None):
     """Random bounded search on the real code for an input falsifying one of the clauses.
     Returns (case or None, stats)."""
+    import time
     found = None
     tried = 0
     valid = 0
+    t0 = time.time()
     for i in range(budget):
+        if seconds is not None and time.time() - t0 > seconds:
+            break
         g = Gen(seed * 1000003 + i)
         src_vals = {}
 
@@ -644,6 +676,8 @@ def search(contract, clause_names, seed, budget, per_case=None):
         tried += 1
         try:
             out = run_case(contract, vals, ni.log)
+        except HarnessGap:
+            continue
         except Exception as e:   # harness problem, not a verdict
             continue
         if not out.get('requires_ok'):
